@@ -93,7 +93,7 @@ def lock_free_service(ctx, rid: str) -> None:
                       "without waiting for the lock", node=e, witness=pretty_path(path))
 
 
-def _flag_path(starts, goal, avoid):
+def _flag_path(starts, goal, avoid, blocked_edges=frozenset()):
     """A normal-edge path from ``starts`` to ``goal`` that avoids ``avoid`` - keeping track of boolean locals that are
     assigned constants on the way (``ok = False`` ... ``if not ok: break``), so that a flag set in a handler and tested later
     does not look like a way around the handler."""
@@ -117,7 +117,7 @@ def _flag_path(starts, goal, avoid):
                     else:
                         known.pop(t.id, None)
         for lab, s in n.succ:
-            if lab in ("e", "p", "h"):
+            if lab in ("e", "p", "h") or (n, lab) in blocked_edges:
                 continue
             if n.kind == "branch" and lab in ("t", "f"):
                 t_ = n.ast
@@ -157,11 +157,38 @@ def r09_12(ctx, u, cfg, main) -> None:
             if lab in ("n", "t", "f", "stop") and not s_.in_region("loop", outer) and s_.kind != "raise_exit" and s_.ast is not outer \
                     and not (isinstance(n.ast, ast.Break)):
                 exits.append(n)
+    marker_edges = _marker_edges(ctx, u, cfg, main)
     for x in exits:
-        path = _flag_path(heads, x, stop_handlers)
+        path = _flag_path(heads, x, stop_handlers, frozenset(marker_edges))
         ctx.check(path is None, "R09.12", u, x.stmt if x.stmt is not None else x.ast,
                   "the loop is left only after the pull's StopAsyncIteration was seen in this round", node=x,
                   witness=pretty_path(path))
+
+
+def _marker_edges(ctx, u, cfg, main) -> set:
+    """(branch, label) on which the value of ``await anext(it, MARK)`` *is* the private marker MARK handed to anext() as
+    its default: the same evidence of exhaustion as entering a StopAsyncIteration handler."""
+    from asl.flow import reaching
+    rd = reaching(cfg)
+    marker_edges = set()
+    for b in main:
+        t = b.ast
+        if b.kind != "branch" or not (isinstance(t, ast.Compare) and len(t.ops) == 1 and isinstance(t.ops[0], (ast.Is, ast.IsNot))
+                                      and isinstance(t.left, ast.Name) and isinstance(t.comparators[0], ast.Name)):
+            continue
+        for val, mark in ((t.left, t.comparators[0]), (t.comparators[0], t.left)):
+            defs = list(rd.defs_at(b, val.id))
+            ok = bool(defs) and {a[0] for a in ctx.vals.expr(u, mark, b)} <= {"sentinel"} and bool(ctx.vals.expr(u, mark, b))
+            for d in defs:
+                v = d.info.get("value") if d.kind == "store" else None
+                call = v.value if isinstance(v, ast.Await) else v
+                if not (isinstance(call, ast.Call) and norm(call.func).split(".")[-1] == "anext" and len(call.args) == 2
+                        and norm(call.args[1]) == mark.id):
+                    ok = False
+            if ok:
+                marker_edges.add((b, "t" if isinstance(t.ops[0], ast.Is) else "f"))
+                break
+    return marker_edges
 
 
 def run(ctx) -> None:
@@ -231,9 +258,11 @@ def run(ctx) -> None:
         stops = {s for loop in loops for (lab, s) in loop.succ if lab == "stop"}
         start = [s for (lab, s) in pull.succ if lab == "n"]
 
+        exhausted_edges = _marker_edges(ctx, u, cfg, main)
+
         def seg_edge(a: Node, lab: str, b: Node) -> bool:
-            if lab in ("e", "p"):
-                return False
+            if lab in ("e", "p") or (a, lab) in exhausted_edges:
+                return False  # (the pull did not complete with an item)
             if a in loops and lab == "stop":
                 return False
             return True
@@ -324,6 +353,8 @@ def _appends(cfg, loop: Node, item_names: Optional[Set[str]]) -> List[Node]:
                 and n.ast.func.attr in ("append", "appendleft") and isinstance(n.ast.func.value, ast.Name) \
                 and n.ast.func.value.id == var and n.ast.args:  # type: ignore[union-attr]
             arg = n.ast.args[0]  # type: ignore[union-attr]
+            if isinstance(arg, ast.Call) and norm(arg.func).split(".")[-1] == "cast" and len(arg.args) == 2:
+                arg = arg.args[1]  # (typing.cast is the identity)
             if item_names is None or (isinstance(arg, ast.Name) and arg.id in item_names):
                 out.append(n)
     return out
